@@ -95,6 +95,12 @@ type Run struct {
 }
 
 func New(id, level string) *Run {
+	// artefacts of earlier runs of this tier are stale once a new run starts
+	if old, _ := filepath.Glob(filepath.Join(Root(), "violations", id, Tier()+"-*.json")); os.Getenv("VERIF_REPLAY") == "" {
+		for _, f := range old {
+			os.Remove(f)
+		}
+	}
 	return &Run{ID: id, Level: level, start: time.Now(), distinct: map[uint64]struct{}{},
 		maxSample: 8, extra: map[string]any{}, exhaust: true, known: map[string]bool{}, findings: loadFindings()}
 }
